@@ -2,6 +2,7 @@ SPECIFICATION Spec
 CONSTANTS
   MaxNodes = 3
   MaxTmpl = 2
+  Family = "all"
   Emit = 1
 INVARIANTS InvStaticNN InvStaticN InvIdentity InvCounts InvFunctional InvFunctionalN InvStepLocal InvEmit
 CHECK_DEADLOCK FALSE
